@@ -51,8 +51,9 @@ import LitexProofs.Periph.Bone
                                                  uart_crossover_no_loss (both directions)       A bounded, B, M (in-order scoreboard)
     UART.add_auto_tx_flush  uartFlush            uart_auto_flush_transparent, uart_auto_flush_drop_rate, uart_auto_flush_drains,
                                                  uart_auto_flush_unblocks
-                                                 (the model follows the code, including the duplicated character when the PHY
-                                                 recovers in a cycle with flush_count ≠ 0 — see the example there)   A complete (timeout 2), B, M
+                                                 uart_auto_flush_exactly_once(_reset) (the model follows the code after fix
+                                                 C19-uart-autoflush-duplicate; the old pop strobe `flushPopOld` is kept for the
+                                                 kernel-checked negative witnesses)             A complete (timeout 2), B, M, probe
     _get_uart_fifo, UARTPHY constructor helpers  (sync case = C03's buffered FIFO model; async case is C05's)   B via UartSysInst / SoC
     UART                    uartTopM, uartSysM   uart_top_no_loss_in_order, uart_sys_tx_once    A 2 inst, B 5 inst incl. SoCMini's UART, M
     Stream2Wishbone, UARTBone, UARTWishboneBridge
@@ -2111,10 +2112,11 @@ theorem uart_auto_flush_drains (dtx drx : Nat) (rxWe : Bool) (T k : Nat) (hd : 0
     rw [hf.2.1, h2]; rfl
 
 /-- Non-vacuity: three characters written, PHY dead; timeout 3, `flush_count` 1 bit: all three are gone after
-    `3 + 1 + 3·2` quiet cycles (here already after 6, the timer ran during the writes), not yet after 5.  And the **recovery defect** of the code that exists
-    (`If(timer.done, flush_ep.ready.eq(flush_count == 0))` overrides `source.ready`): when the PHY becomes ready in a
-    cycle with `timer.done` and `flush_count ≠ 0` it takes the character (`source.valid & source.ready`) but the FIFO
-    does not pop — the same character is offered again in the next cycle. -/
+    `3 + 1 + 3·2` quiet cycles (here already after 6, the timer ran during the writes), not yet after 5.  And the recovery cycle: when the PHY becomes ready in a cycle with `timer.done` and
+    `flush_count ≠ 0` it takes the character and the FIFO pops — the next character is offered in the next cycle.
+    Negative witness for the code before fix `C19-uart-autoflush-duplicate` (`flush_ep.ready.eq(flush_count == 0)`
+    overrode `source.ready`; `uartFlushNextOld`): the FIFO did not pop and the same character was offered, and taken,
+    again. -/
 example :
     let m := uartFlush 2 2 false 3 1
     let w : Nat → UartTopIn := fun d => ⟨true, d, false, false, false, 0, false⟩
@@ -2126,7 +2128,9 @@ example :
     fbInflight (m.runFrom s (List.replicate 5 q)).top.tx ≠ [] ∧
     (let s4 := m.run [w 0x41, w 0x42, q]
      ((m.out s4 r).srcV, (m.out s4 r).srcD, (m.out (m.next s4 r) r).srcV, (m.out (m.next s4 r) r).srcD) =
-       (true, 0x41, true, 0x41)) := by decide
+       (true, 0x41, true, 0x42) ∧
+     ((m.out (uartFlushNextOld 2 2 false 3 1 s4 r) r).srcV, (m.out (uartFlushNextOld 2 2 false 3 1 s4 r) r).srcD) =
+       (true, 0x41)) := by decide
 
 /-- **bitslip_shift.**  `BitSlip(dw)`, every history: after two words `a`, `b` and a cycle with `value = v < dw`, the
     output register holds bits `[v, v+dw)` of the window `b:a` — `(a >> v) | (b << (dw - v))` truncated to `dw` bits:
@@ -2480,5 +2484,67 @@ example :
     let ins := [wr 0x41 0x61, wr 0x42 0x62, wr 0x43 0x63, idle, idle, idle, rd, idle, rd]
     xoWritten 2 2 false m.init ins = [0x41, 0x42, 0x43] ∧ xoRead 2 2 false m.init ins = [0x41, 0x42] ∧
     (xoWrittenX 2 2 false m.init ins, xoReadM 2 2 false m.init ins) = ([0x61, 0x62, 0x63], [0x61, 0x62]) := by decide
+
+/-! ## `add_auto_tx_flush` after the fix: delivered exactly once, or flushed (lemmas in `LitexProofs/Periph/Glue2.lean`) -/
+
+/-- **uart_auto_flush_exactly_once.**  `UART.add_auto_tx_flush` with the pop strobe
+    `timer.done ? (source.ready | flush_count == 0) : source.ready`, from any state with at most `dtx` queued characters
+    (in particular from reset) and for EVERY input history — all schedules of `source.ready`, any software writes:
+      1. the characters accepted from `rxtx` (`re ∧ ¬txfull`) = the pop log of the TX FIFO ++ what still waits in it
+         (`s` not at reset: preceded by what waited before): nothing lost, duplicated or reordered;
+      2. the characters handed to the PHY (`source.valid ∧ source.ready`) are exactly the pops with `source.ready`, the
+         flushed characters exactly the pops without: every character is delivered once or flushed, never both, never
+         twice;
+      3. per cycle: a PHY handshake always pops (the fact that fails for the old strobe, see below), and a pop without
+         `source.ready` happens only with the timer expired (`cnt = 0`: no `source.ready` for the last `T` cycles or
+         more, `WaitTimer`) and `flush_count = 0`. -/
+theorem uart_auto_flush_exactly_once (dtx drx : Nat) (rxWe : Bool) (T k : Nat) (s : UartFlushSt) (ins : List UartTopIn)
+    (h : s.top.tx.q.length ≤ dtx) :
+    let s' := (uartFlush dtx drx rxWe T k).runFrom s ins
+    let pops := flPops dtx drx rxWe T k s ins
+    dataOf (fbInflight s.top.tx) ++ flWritten dtx drx rxWe T k s ins = pops.map (·.1) ++ dataOf (fbInflight s'.top.tx) ∧
+    s'.top.tx.q.length ≤ dtx ∧
+    flPhy dtx drx rxWe T k s ins = (pops.filter (·.2)).map (·.1) ∧
+    flFlushed dtx drx rxWe T k s ins = (pops.filter (!·.2)).map (·.1) ∧
+    (∀ st : UartFlushSt, flushPop st true = true) ∧
+    (∀ st : UartFlushSt, flushPop st false = true → st.cnt = 0 ∧ st.fc = 0) := by
+  intro s' pops
+  obtain ⟨h1, h2⟩ := flush_pops_run dtx drx rxWe T k ins s h
+  obtain ⟨h3, h4⟩ := flush_pops_split dtx drx rxWe T k ins s
+  exact ⟨h1, h2, h3, h4, flushPop_of_ready, flushPop_flush⟩
+
+/-- From reset: `flWritten = pops ++ waiting`. -/
+theorem uart_auto_flush_exactly_once_reset (dtx drx : Nat) (rxWe : Bool) (T k : Nat) (ins : List UartTopIn) :
+    let m := uartFlush dtx drx rxWe T k
+    flWritten dtx drx rxWe T k m.init ins =
+      (flPops dtx drx rxWe T k m.init ins).map (·.1) ++ dataOf (fbInflight (m.run ins).top.tx) := by
+  intro m
+  have h := (flush_pops_run dtx drx rxWe T k ins m.init (Nat.zero_le _)).1
+  have e0 : dataOf (fbInflight m.init.top.tx) = [] := rfl
+  rw [e0, List.nil_append] at h
+  exact h
+
+/-- Non-vacuity (timeout 3, `flush_count` 2 bits): three writes, the PHY silent for five cycles — 0x41 is flushed in cycle
+    4 (`flush_count = 0`) — then the PHY recovers in cycle 5 with the timer expired and `flush_count = 1`: 0x42 and 0x43
+    are each handed over once.  With the strobe before the fix (`flushPopOld`) that very state breaks fact 3: the PHY
+    takes 0x42 (`source.valid ∧ source.ready`) but the FIFO does not pop and still offers 0x42 in the next cycle. -/
+example :
+    let m := uartFlush 2 2 false 3 2
+    let w : Nat → UartTopIn := fun d => ⟨true, d, false, false, false, 0, false⟩
+    let q : UartTopIn := ⟨false, 0, false, false, false, 0, false⟩
+    let r : UartTopIn := ⟨false, 0, false, false, false, 0, true⟩
+    let ins := [w 0x41, w 0x42, w 0x43, q, q, r, r, q, r]
+    flWritten 2 2 false 3 2 m.init ins = [0x41, 0x42, 0x43] ∧
+    flPops 2 2 false 3 2 m.init ins = [(0x41, false), (0x42, true), (0x43, true)] ∧
+    flPhy 2 2 false 3 2 m.init ins = [0x42, 0x43] ∧ flFlushed 2 2 false 3 2 m.init ins = [0x41] ∧
+    (let s5 := m.run (ins.take 5)
+     (s5.cnt, s5.fc, (m.out s5 r).srcV, (m.out s5 r).srcD) = (0, 1, true, 0x42) ∧
+     flushPop s5 true = true ∧ (uartFlushNext 2 2 false 3 2 s5 r).top.tx.dout.data = 0x43 ∧
+     flushPopOld s5 true = false ∧ (uartFlushNextOld 2 2 false 3 2 s5 r).top.tx.dout.data = 0x42 ∧
+     (uartFlushNextOld 2 2 false 3 2 s5 r).top.tx.readable = true) := by decide +kernel
+
+/-- Negative witness for the old strobe: `source.valid ∧ source.ready` does not imply a pop. -/
+example : ¬ ∀ st : UartFlushSt, flushPopOld st true = true :=
+  fun h => absurd (h ⟨⟨⟨[], true, tokN 0x42⟩, ⟨[], false, zTokN⟩⟩, 0, 1⟩) (by decide)
 
 end Litex.C19
